@@ -1,8 +1,128 @@
-(* C05 model driver: embedding search, Merkle paths, decision pipelines *)
+(* C05 model driver: embedding search, Merkle paths, decision pipelines.
+   The oracles of the Coq sections are instantiated per case from the leaf facts that the harness
+   measured with library primitives (PoW verdict and hashes of each context block, verify(), derived
+   address, context-info root, header callback); SHA-256 is implemented here for the Merkle folds. *)
 let hexb s = if s = "-" then [] else zbytes_of_hex s
 let code v = let (a, r) = verdict_code v in
   let a = int_of_z a and r = int_of_z r in
   if a = 1 then "1" else if a = 0 then Printf.sprintf "0 %d" r else if a = 2 then "OOB-BITS" else "OOB-BUF"
+
+(* ---- SHA-256 over int lists ---- *)
+let k256 = [|
+  0x428a2f98;0x71374491;0xb5c0fbcf;0xe9b5dba5;0x3956c25b;0x59f111f1;0x923f82a4;0xab1c5ed5;
+  0xd807aa98;0x12835b01;0x243185be;0x550c7dc3;0x72be5d74;0x80deb1fe;0x9bdc06a7;0xc19bf174;
+  0xe49b69c1;0xefbe4786;0x0fc19dc6;0x240ca1cc;0x2de92c6f;0x4a7484aa;0x5cb0a9dc;0x76f988da;
+  0x983e5152;0xa831c66d;0xb00327c8;0xbf597fc7;0xc6e00bf3;0xd5a79147;0x06ca6351;0x14292967;
+  0x27b70a85;0x2e1b2138;0x4d2c6dfc;0x53380d13;0x650a7354;0x766a0abb;0x81c2c92e;0x92722c85;
+  0xa2bfe8a1;0xa81a664b;0xc24b8b70;0xc76c51a3;0xd192e819;0xd6990624;0xf40e3585;0x106aa070;
+  0x19a4c116;0x1e376c08;0x2748774c;0x34b0bcb5;0x391c0cb3;0x4ed8aa4a;0x5b9cca4f;0x682e6ff3;
+  0x748f82ee;0x78a5636f;0x84c87814;0x8cc70208;0x90befffa;0xa4506ceb;0xbef9a3f7;0xc67178f2 |]
+let m32 = 0xffffffff
+let rotr x n = ((x lsr n) lor (x lsl (32 - n))) land m32
+let sha256_ints (msg : int list) : int list =
+  let ml = List.length msg in
+  let padlen = let r = (ml + 9) mod 64 in if r = 0 then 0 else 64 - r in
+  let total = ml + 9 + padlen in
+  let b = Bytes.make total '\000' in
+  List.iteri (fun i x -> Bytes.set b i (Char.chr (x land 255))) msg;
+  Bytes.set b ml '\x80';
+  let bits = ml * 8 in
+  for i = 0 to 7 do Bytes.set b (total - 1 - i) (Char.chr ((bits lsr (8 * i)) land 255)) done;
+  let h = [| 0x6a09e667; 0xbb67ae85; 0x3c6ef372; 0xa54ff53a; 0x510e527f; 0x9b05688c; 0x1f83d9ab; 0x5be0cd19 |] in
+  let w = Array.make 64 0 in
+  for blk = 0 to total / 64 - 1 do
+    for t = 0 to 15 do
+      let o = blk * 64 + t * 4 in
+      w.(t) <- (Char.code (Bytes.get b o) lsl 24) lor (Char.code (Bytes.get b (o+1)) lsl 16)
+               lor (Char.code (Bytes.get b (o+2)) lsl 8) lor Char.code (Bytes.get b (o+3))
+    done;
+    for t = 16 to 63 do
+      let s0 = rotr w.(t-15) 7 lxor rotr w.(t-15) 18 lxor (w.(t-15) lsr 3) in
+      let s1 = rotr w.(t-2) 17 lxor rotr w.(t-2) 19 lxor (w.(t-2) lsr 10) in
+      w.(t) <- (w.(t-16) + s0 + w.(t-7) + s1) land m32
+    done;
+    let a = ref h.(0) and bb = ref h.(1) and c = ref h.(2) and d = ref h.(3)
+    and e = ref h.(4) and f = ref h.(5) and g = ref h.(6) and hh = ref h.(7) in
+    for t = 0 to 63 do
+      let s1 = rotr !e 6 lxor rotr !e 11 lxor rotr !e 25 in
+      let ch = (!e land !f) lxor ((lnot !e) land m32 land !g) in
+      let t1 = (!hh + s1 + ch + k256.(t) + w.(t)) land m32 in
+      let s0 = rotr !a 2 lxor rotr !a 13 lxor rotr !a 22 in
+      let mj = (!a land !bb) lxor (!a land !c) lxor (!bb land !c) in
+      let t2 = (s0 + mj) land m32 in
+      hh := !g; g := !f; f := !e; e := (!d + t1) land m32; d := !c; c := !bb; bb := !a; a := (t1 + t2) land m32
+    done;
+    h.(0) <- (h.(0) + !a) land m32; h.(1) <- (h.(1) + !bb) land m32; h.(2) <- (h.(2) + !c) land m32;
+    h.(3) <- (h.(3) + !d) land m32; h.(4) <- (h.(4) + !e) land m32; h.(5) <- (h.(5) + !f) land m32;
+    h.(6) <- (h.(6) + !g) land m32; h.(7) <- (h.(7) + !hh) land m32
+  done;
+  List.concat (List.map (fun x -> [ (x lsr 24) land 255; (x lsr 16) land 255; (x lsr 8) land 255; x land 255 ]) (Array.to_list h))
+let sha256 (l : z list) : z list = List.map z_of_int (sha256_ints (List.map int_of_z l))
+let sha256d (l : z list) : z list = List.map z_of_int (sha256_ints (sha256_ints (List.map int_of_z l)))
+
+(* ---- facts ---- *)
+let facts (args : string list) : (string, string) Hashtbl.t =
+  let h = Hashtbl.create 64 in
+  List.iter (fun t -> match String.index_opt t '=' with
+    | Some i -> Hashtbl.replace h (String.sub t 0 i) (String.sub t (i+1) (String.length t - i - 1))
+    | None -> ()) args; h
+let get h k = try Hashtbl.find h k with Not_found -> failwith ("missing fact " ^ k)
+let zdec s = z_of_int (int_of_string s)
+let net s = if s = "-" then None else Some (z_of_hex s)
+let split_on c s = if s = "-" || s = "" then [] else String.split_on_char c s
+let layers s = List.map hexb (split_on ',' s)
+let ids = layers
+
+type bblock = { bpow : bool; bhash : z list; bprev : z list }
+let btc_ctx s : bblock list =
+  if String.length s > 0 && s.[0] = '#' then
+    (* only the number of blocks matters (context-too-many): n copies of an invalid block *)
+    List.init (int_of_string (String.sub s 1 (String.length s - 1))) (fun _ -> { bpow = false; bhash = []; bprev = [] })
+  else List.map (fun b -> match String.split_on_char ':' b with
+    | [p; h; pr] -> { bpow = (p = "1"); bhash = hexb h; bprev = hexb pr }
+    | _ -> failwith "bad ctx block") (split_on ';' s)
+
+let vertab : (string, bool) Hashtbl.t = Hashtbl.create 16
+let verify_o (h : z list) (_ : z list) (_ : z list) : bool = try Hashtbl.find vertab (hex_of_zbytes h) with Not_found -> false
+let addr_from_pubkey_o (pk : z list) = pk          (* the key is represented by the address derived from it *)
+let addr_checksum_o (a : z list) = a
+let ctxinfo_root_o (c : z list) = if c = [] then None else Some c
+let check_block_header_o (h : z list) (_ : z list) = (h = [z_of_int 1])
+
+let vmpath h pre = { vp_subject = hexb (get h (pre ^ "vs")); vp_treeIndex = zdec (get h (pre ^ "vt"));
+                     vp_index = zdec (get h (pre ^ "vi")); vp_layers = layers (get h (pre ^ "vl")) }
+let poptx h pre =
+  Hashtbl.replace vertab (get h (pre ^ "hash")) (get h (pre ^ "ver") = "1");
+  { p_network = net (get h (pre ^ "net")); p_context = btc_ctx (get h (pre ^ "ctx"));
+    p_pubbytes = hexb (get h (pre ^ "pub")); p_btctx = hexb (get h (pre ^ "btctx"));
+    p_btctx_hash = hexb (get h (pre ^ "btchash"));
+    p_path = { mp_subject = hexb (get h (pre ^ "mps")); mp_index = zdec (get h (pre ^ "mpi")); mp_layers = layers (get h (pre ^ "mpl")) };
+    p_bop_root = hexb (get h (pre ^ "broot")); p_address = hexb (get h (pre ^ "addr"));
+    p_pubkey = hexb (get h (pre ^ "exp")); p_signature = []; p_hash = hexb (get h (pre ^ "hash")) }
+let vtb h pre = { v_tx = poptx h pre; v_path = vmpath h pre; v_containing_root = hexb (get h (pre ^ "croot")) }
+let vbktx h pre =
+  Hashtbl.replace vertab (get h (pre ^ "hash")) (get h (pre ^ "ver") = "1");
+  { t_network = net (get h (pre ^ "net")); t_outputs = zdec (get h (pre ^ "nout")); t_fee = zdec (get h (pre ^ "fee"));
+    t_pubdata = { pd_identifier = zdec (get h (pre ^ "pid")); pd_header = [z_of_int (int_of_string (get h (pre ^ "hdrok")))];
+                  pd_contextInfo = hexb (get h (pre ^ "ctxroot")) };
+    t_address = hexb (get h (pre ^ "addr")); t_pubkey = hexb (get h (pre ^ "exp")); t_signature = []; t_hash = hexb (get h (pre ^ "hash")) }
+let atv h pre = { a_tx = vbktx h pre; a_path = vmpath h pre; a_bop_root = hexb (get h (pre ^ "croot")) }
+
+let res_s = function Ok -> "1" | Err (c, s) -> Printf.sprintf "0 %d %d" (int_of_z c) (int_of_z s)
+let bh b = b.bhash and bp b = b.bprev and bw b = b.bpow
+
+let run_poptx h pre = check_vbk_pop_tx bh bp bw sha256d verify_o addr_from_pubkey_o addr_checksum_o (net (get h (pre ^ "magic"))) (poptx h pre)
+let run_vtb h pre = full_check_vtb bh bp bw sha256d sha256 verify_o addr_from_pubkey_o addr_checksum_o (net (get h (pre ^ "magic"))) (vtb h pre)
+let run_vbktx h pre = check_vbk_tx verify_o addr_from_pubkey_o addr_checksum_o ctxinfo_root_o check_block_header_o
+                        (net (get h (pre ^ "magic"))) (zdec (get h (pre ^ "altid"))) (vbktx h pre)
+let run_atv h pre = full_check_atv sha256 verify_o addr_from_pubkey_o addr_checksum_o ctxinfo_root_o check_block_header_o
+                        (net (get h (pre ^ "magic"))) (zdec (get h (pre ^ "altid"))) (atv h pre)
+
+type vblock = { vplaus : bool; vpow : bool; vheight : z; vtrim : z list; vprev : z list }
+let vblocks s = List.map (fun b -> match String.split_on_char ':' b with
+    | [p; w] -> { vplaus = (p = "1"); vpow = (w = "1"); vheight = Z0; vtrim = []; vprev = [] }
+    | [p; w; hgt; t; pr] -> { vplaus = (p = "1"); vpow = (w = "1"); vheight = zdec hgt; vtrim = hexb t; vprev = hexb pr }
+    | _ -> failwith "bad vbk block") (split_on ';' s)
 
 let handle op args = match op, args with
   | ("embed" | "embedh"), [data; tx] -> code (check_embedding (hexb data) (hexb tx))
@@ -10,5 +130,34 @@ let handle op args = match op, args with
   | "splitv0", [data; tx] -> code (containsSplit_v0 (hexb data) (hexb tx))
   | "contig", [data; tx] -> b2s (contiguous_search (hexb data) (hexb tx))
   | "contigv0", [data; tx] -> b2s (contiguous_search_v0 (hexb data) (hexb tx))
+  | "sha256", [m] -> hex_of_zbytes (sha256 (hexb m))
+  | "poptx", _ -> res_s (run_poptx (facts args) "")
+  | "vtb", _ -> res_s (run_vtb (facts args) "")
+  | "vbktx", _ -> res_s (run_vbktx (facts args) "")
+  | "atv", _ -> res_s (run_atv (facts args) "")
+  | "vbkblock", _ ->
+    let h = facts args in
+    let r = check_vbk_block (fun (p, _) -> p) (fun (_, w) -> w) (get h "plaus" = "1", get h "pow" = "1") in
+    if int_of_z r = 0 then "1" else Printf.sprintf "0 %d 0" (int_of_z r)
+  | "vbkblocks", _ ->
+    let h = facts args in
+    let r = check_vbk_blocks (fun b -> b.vheight) (fun b -> b.vtrim) (fun b -> b.vprev) (fun b -> b.vplaus) (fun b -> b.vpow) (vblocks (get h "blocks")) in
+    if int_of_z r = 0 then "1" else Printf.sprintf "0 %d 0" (int_of_z r)
+  | "popdata", _ ->
+    let h = facts args in
+    let nv = int_of_string (get h "nv") and na = int_of_string (get h "na") in
+    let vs = List.init nv (fun i -> vtb h (Printf.sprintf "v%d." i)) in
+    let ats = List.init na (fun i -> atv h (Printf.sprintf "a%d." i)) in
+    let magic = if nv > 0 then net (get h "v0.magic") else if na > 0 then net (get h "a0.magic") else None in
+    let altid = if na > 0 then zdec (get h "a0.altid") else Z0 in
+    let d = { d_estimate = zdec (get h "est"); d_context = vblocks (get h "blocks"); d_vtbs = vs; d_atvs = ats;
+              d_context_ids = ids (get h "cids"); d_vtb_ids = ids (get h "vids"); d_atv_ids = ids (get h "aids") } in
+    let st0 = ((List.init nv (fun _ -> false), List.init na (fun _ -> false)), false) in
+    let (r, ((fv, fa), c)) =
+      check_pop_data bh bp bw (fun b -> b.vplaus) (fun b -> b.vpow) sha256d sha256 verify_o addr_from_pubkey_o addr_checksum_o
+        ctxinfo_root_o check_block_header_o magic altid (zdec (get h "maxsize")) (zdec (get h "maxvbk")) (zdec (get h "maxvtb"))
+        (zdec (get h "maxatv")) d st0 in
+    let fl l = String.concat "" (List.map b2s l) in
+    Printf.sprintf "%s | %s/%s/%s" (res_s r) (fl fv) (fl fa) (b2s c)
   | _ -> failwith ("unknown op " ^ op)
 let () = main_loop handle
